@@ -162,9 +162,9 @@ package level
 
 // Width tables of the two configurations (protocol: 0 | 4 | 5..8 | global for block states; 0 | 1..3 | global for biomes)
 //@ func (statesCfg).bits(s; b) (res)
-//@   ensures res == ite(b == 0, 0, ite(1 <= b && b <= 4, 4, ite(5 <= b && b <= 8, b, 15)))   [@value]
+//@   ensures res == ite(b == 0, 0, ite(1 <= b && b <= 4, 4, ite(5 <= b && b <= 8, b, block.BitsPerBlock)))   [@value]
 //@   modifies nothing
 
 //@ func (biomesCfg).bits(s; b) (res)
-//@   ensures res == ite(b == 0, 0, ite(1 <= b && b <= 3, b, 6))                      [@value]
+//@   ensures res == ite(b == 0, 0, ite(1 <= b && b <= 3, b, biome.BitsPerBiome))    [@value]
 //@   modifies nothing
